@@ -259,9 +259,16 @@ def read_set(st, files):
     return reads, missing
 
 
+# A file with exactly this content is a header that does not contribute to what is compiled (all comments, everything behind an
+# #if 0): the command reads it and reports it, its output does not depend on it.  Same constant in nsim.cc and vtool.cc.
+HOLLOW = "// hollow\n"
+
+
 def output_content(st, o, reads, rsp=None):
     key = o.encode() + b"\0" + (b"" if st["generator"] else cmd_string(st).encode()) + b"\0" + (b"" if st["generator"] else (rsp if rsp is not None else rsp_string(st)).encode()) + b"\0"
     for p, c in sorted(reads):
+        if c == HOLLOW:
+            continue        # read (and reported as a dependency), but nothing in it reaches the output
         key += p.encode() + b"\0" + c.encode("latin-1") + b"\0"
     return "G" + hhex(key)
 
